@@ -1278,3 +1278,96 @@ pub fn features(doc: &Doc, toks: &[Tok]) -> Vec<&'static str> {
     f.dedup();
     f
 }
+
+// ---------------------------------------------------------------------------------------------
+// package references placed by the generator (for C17)
+
+#[derive(Clone, Debug, PartialEq, Eq, PartialOrd, Ord)]
+pub enum RefKind {
+    Targets,
+    ImportPath,
+    UsePath,
+    WorldItemPath,
+    Include,
+    New,
+}
+
+#[derive(Clone, Debug)]
+pub struct PkgRef {
+    /// package name as written (without version)
+    pub name: String,
+    pub version: Option<String>,
+    /// first path segment (interface / world name) if the reference is a path
+    pub segment: Option<String>,
+    pub kind: RefKind,
+    /// nesting depth of the syntactic position (0 = statement level)
+    pub depth: usize,
+}
+
+fn path_ref(p: &Path, kind: RefKind, depth: usize) -> PkgRef {
+    PkgRef { name: p.name_text(), version: p.version.clone(), segment: p.segs.first().map(|s| s.text()), kind, depth }
+}
+
+fn refs_iface_items(items: &[IfaceItem], depth: usize, out: &mut Vec<PkgRef>) {
+    for it in items {
+        if let IfaceItem::Use(u) = it {
+            if let UsePath::Package(p) = &u.path {
+                out.push(path_ref(p, RefKind::UsePath, depth));
+            }
+        }
+    }
+}
+
+fn refs_expr(e: &Expr, depth: usize, out: &mut Vec<PkgRef>) {
+    match &e.primary {
+        Primary::New(p, args) => {
+            out.push(PkgRef { name: p.name_text(), version: p.version.clone(), segment: None, kind: RefKind::New, depth });
+            for a in args {
+                if let Arg::Named(_, e) = a {
+                    refs_expr(e, depth + 1, out);
+                }
+            }
+        }
+        Primary::Nested(e) => refs_expr(e, depth + 1, out),
+        Primary::Ident(_) => {}
+    }
+}
+
+/// Every package reference in the document, in source order, from the generator's own model.
+pub fn references(doc: &Doc) -> Vec<PkgRef> {
+    let mut out = vec![];
+    if let Some(t) = &doc.targets {
+        out.push(path_ref(t, RefKind::Targets, 0));
+    }
+    for s in &doc.stmts {
+        match s {
+            Stmt::Import { ty, .. } => match ty {
+                ImportTy::Package(p) => out.push(path_ref(p, RefKind::ImportPath, 0)),
+                ImportTy::Interface(items) => refs_iface_items(items, 1, &mut out),
+                _ => {}
+            },
+            Stmt::Interface(_, items) => refs_iface_items(items, 1, &mut out),
+            Stmt::World(_, items) => {
+                for it in items {
+                    match it {
+                        WorldItem::Use(u) => {
+                            if let UsePath::Package(p) = &u.path {
+                                out.push(path_ref(p, RefKind::UsePath, 1));
+                            }
+                        }
+                        WorldItem::Import(w) | WorldItem::Export(w) => match w {
+                            WPath::Package(p) => out.push(path_ref(p, RefKind::WorldItemPath, 1)),
+                            WPath::Named(_, ExternTy::Interface(items)) => refs_iface_items(items, 2, &mut out),
+                            _ => {}
+                        },
+                        WorldItem::Include(WorldRef::Package(p), _) => out.push(path_ref(p, RefKind::Include, 1)),
+                        _ => {}
+                    }
+                }
+            }
+            Stmt::Type(_) => {}
+            Stmt::Let(_, e) | Stmt::Export(e, _) => refs_expr(e, 0, &mut out),
+        }
+    }
+    out
+}
